@@ -9,7 +9,7 @@ from props import c02
 
 THEOREMS = ["C14_request_sequence_zstd_nodict_partial", "C14_request_sequence"]
 ASSUMPTIONS = [
-    "C14_request_sequence covers both compression types, with and without dictionary chunk; side condition (zstd only): no entry with 0 stored bytes declares a non-zero size",
+    "C14_request_sequence covers both compression types, with and without dictionary chunk; no side condition on the file",
     "model Read/CompRead.v is a hand transcription of the read path, tied by differential execution on request sequences",
     "H and zdecomp are parameters (OpenSSL / libzstd in the run)",
     "file reads are fault free (property C12); the header layer provides the header record (property C13)",
